@@ -1183,8 +1183,8 @@ func (ex *Exec) recordAccess(st *State, o *Object, path []PathEl, write bool, al
 	if ex.sched == nil || !ex.sched.Races || st.thread == nil || o.Ghost || o.Kind == OChan {
 		return
 	}
-	if st.syncInternal {
-		return
+	if st.syncInternal || ex.inHarness(st) {
+		return // the lock word itself, and ghost observations made by the harness
 	}
 	var sb strings.Builder
 	for _, e := range path {
